@@ -589,7 +589,8 @@ func (w *c24World) drawConcurrentProposals(t *rapid.T) {
 	readers := rapid.IntRange(1, 3).Draw(t, "readers")
 	nops := rapid.SampledFrom([]int{0, 3, 40, 300}).Draw(t, "nops")
 	withCleaner := rapid.Bool().Draw(t, "cleaner")
-	x := c24Triple{h: 40 + int64(rapid.IntRange(0, 3).Draw(t, "height")), r: 0, proposer: rapid.IntRange(0, 2).Draw(t, "proposer")}
+	// heights above every sequential position (at most 42), so that the position is fresh and the newest in the pool
+	x := c24Triple{h: 60 + int64(rapid.IntRange(0, 3).Draw(t, "height")), r: 0, proposer: rapid.IntRange(0, 2).Draw(t, "proposer")}
 
 	w.concurrentProposals(g, readers, nops, withCleaner, x)
 }
@@ -733,7 +734,7 @@ func (w *c24World) concurrentProposals(g, readers, nops int, withCleaner bool, x
 		t.Fatalf("Proposal: %v", err)
 	}
 
-	// heights 40..43 are the newest in the pool: the concurrent cleaner may never remove this proposal
+	// heights 60..63 are the newest in the pool: the concurrent cleaner may never remove this proposal
 	if !found {
 		w.r.Violation(t, "concurrent-proposal-lost", "after %d concurrent SetProposal calls for one fact (returned %v) the proposal is not stored; history: %s", g, added, w.history())
 
@@ -780,7 +781,7 @@ func (w *c24World) concurrentProposals(g, readers, nops int, withCleaner bool, x
 func (w *c24World) concurrentBallots(t *rapid.T) {
 	g := rapid.IntRange(2, 6).Draw(t, "writers")
 	readers := rapid.IntRange(1, 3).Draw(t, "readers")
-	k := c24BallotKey{h: 50 + int64(rapid.IntRange(0, 3).Draw(t, "height")), r: 0, stage: base.StageINIT}
+	k := c24BallotKey{h: 70 + int64(rapid.IntRange(0, 3).Draw(t, "height")), r: 0, stage: base.StageINIT}
 
 	if rapid.Bool().Draw(t, "accept") {
 		k.stage = base.StageACCEPT
